@@ -81,11 +81,12 @@ type Out struct {
 	Hist     map[string]int
 	Extra    map[string]interface{}
 	ShardMax int
+	ShardBytes int
 }
 
 func New(dir, prop, runner, caseType, rule string) *Out {
 	return &Out{Dir: dir, Prop: prop, Runner: runner, CaseType: caseType, Rule: rule,
-		Hist: map[string]int{}, Extra: map[string]interface{}{}, ShardMax: 250}
+		Hist: map[string]int{}, Extra: map[string]interface{}{}, ShardMax: 250, ShardBytes: 40000}
 }
 
 func (o *Out) Add(c Case) int {
@@ -129,10 +130,12 @@ func (o *Out) Finish() error {
 	jf.Close()
 	// shards
 	nsh := 0
-	for i := 0; i < len(o.Cases); i += o.ShardMax {
-		j := i + o.ShardMax
-		if j > len(o.Cases) {
-			j = len(o.Cases)
+	for i := 0; i < len(o.Cases); {
+		// a shard holds at most ShardMax cases and about ShardBytes of Coq text
+		j, sz := i, 0
+		for j < len(o.Cases) && j-i < o.ShardMax && (j == i || sz+len(o.Cases[j].Coq) <= o.ShardBytes) {
+			sz += len(o.Cases[j].Coq)
+			j++
 		}
 		var sb strings.Builder
 		fmt.Fprintf(&sb, "From %s Require Import %s.\nFrom Coq Require Import List NArith ZArith String.\nImport ListNotations.\nOpen Scope N_scope.\n", moduleRoot(o.Runner), moduleLeaf(o.Runner))
@@ -156,6 +159,7 @@ func (o *Out) Finish() error {
 			return err
 		}
 		nsh++
+		i = j
 	}
 	samples := []interface{}{}
 	step := len(o.Cases)/4 + 1
